@@ -176,6 +176,19 @@ func refBin(op string, a, b Val) (Val, ood) {
 			r.D = a.D.AddDate(0, 0, n)
 			return r, ""
 		}
+		if a.T == 'D' && b.T == 'T' && a.HasTod {
+			// datetime +- time of day
+			d := time.Duration(b.H)*time.Hour + time.Duration(b.M)*time.Minute + time.Duration(b.Sec)*time.Second
+			if op == "-" {
+				d = -d
+			}
+			r := a
+			r.D = a.D.Add(d)
+			return r, ""
+		}
+		if a.T == 'D' && b.T == 'T' && op == "-" {
+			return Val{}, "date minus time of day"
+		}
 		if a.T == 'D' && b.T == 'T' && op == "+" && !a.HasTod {
 			r := a
 			r.D = time.Date(a.D.Year(), a.D.Month(), a.D.Day(), b.H, b.M, b.Sec, 0, time.UTC)
@@ -597,10 +610,14 @@ func refCall(f string, a []Val) (Val, ood) {
 			y, ok1 := a[0].intValue()
 			m, ok2 := a[1].intValue()
 			d, ok3 := a[2].intValue()
-			if !ok1 || !ok2 || !ok3 || y < 1900 || y > 2100 || m < 1 || m > 12 || d < 1 || d > 28 {
+			if !ok1 || !ok2 || !ok3 || y < 1900 || y > 9000 || m < 1 || m > 12 || d < 1 || d > 31 {
 				return Val{}, "date parts out of range"
 			}
-			return Val{T: 'D', D: time.Date(y, time.Month(m), d, 0, 0, 0, 0, time.UTC)}, ""
+			dt := time.Date(y, time.Month(m), d, 0, 0, 0, 0, time.UTC)
+			if dt.Day() != d {
+				return Val{}, "no such calendar day"
+			}
+			return Val{T: 'D', D: dt}, ""
 		}
 	case "TIME":
 		if len(a) == 3 {
@@ -648,7 +665,7 @@ func refCall(f string, a []Val) (Val, ood) {
 	case "EDATE":
 		if len(a) == 2 && a[0].T == 'D' {
 			n, ok := a[1].intValue()
-			if !ok || n < -240 || n > 240 || a[0].D.Day() > 28 {
+			if !ok || n < -20000 || n > 60000 || a[0].D.Day() > 28 {
 				return Val{}, "month shift out of range"
 			}
 			r := a[0]
